@@ -136,6 +136,11 @@ def run_case(case, seed):
                     ("normQ", lambda: u.normQ(Aq), expF, 16 * O.U * 4 * m * n * expF),
                     ("normQsparse", lambda: u.normQsparse(*comps(A)), expF, 16 * O.U * 4 * m * n * expF),
                     ("normQsparse(sp)", lambda: u.normQsparse(*[sp.csr_matrix(c) for c in comps(A)]), expF, 16 * O.U * 4 * m * n * expF),
+                    ("normQsparse(csc_matrix)", lambda: u.normQsparse(*[sp.csc_matrix(c) for c in comps(A)]), expF, 16 * O.U * 4 * m * n * expF),
+                    ("normQsparse(coo_matrix)", lambda: u.normQsparse(*[sp.coo_matrix(c) for c in comps(A)]), expF, 16 * O.U * 4 * m * n * expF),
+                    ("normQsparse(csr_array)", lambda: u.normQsparse(*[sp.csr_array(c) for c in comps(A)]), expF, 16 * O.U * 4 * m * n * expF),
+                    ("normQsparse(coo_array)", lambda: u.normQsparse(*[sp.coo_array(c) for c in comps(A)]), expF, 16 * O.U * 4 * m * n * expF),
+                    ("normQsparse(csc_array)", lambda: u.normQsparse(*[sp.csc_array(c) for c in comps(A)]), expF, 16 * O.U * 4 * m * n * expF),
                     ("tensor_frobenius_norm", lambda: lib.tensor.tensor_frobenius_norm(Aq), expF, 16 * O.U * 4 * m * n * expF),
                     ("tensor_frobenius_norm(3d)", lambda: lib.tensor.tensor_frobenius_norm(Aq.reshape(m, n, 1)), expF, 16 * O.U * 4 * m * n * expF),
                 ]
